@@ -22,3 +22,102 @@ Example C09_nonvacuous :
   cyclic_core [("a", "b"); ("b", "c"); ("c", "a"); ("x", "a")] = ["a"; "b"; "c"] /\
   cyclic_core [("a", "b"); ("b", "c"); ("x", "a")] = [].
 Proof. vm_compute. auto. Qed.
+
+(* Part 2: universal, on the HARDWARE model, for every description whose links form a tree (any size, any shape:
+   router trees, stars, chains, with any endpoints): under ID-table routing the signals crossed by the flits of ALL
+   ordered pairs of interfaces -- a superset of the request and of the response pairs -- on any physical network
+   induce an acyclic channel-dependency graph.  The tree is given by a CHECKED certificate (a depth per unit with
+   one neighbour above each unit, Side.tree_certb; the harness offers breadth-first levels); the other hypotheses
+   are the decidable side conditions of C02_hw_delivered_decidable, evaluated by the harness on every tree it runs.
+   Proof: a shortest-path route climbs, then descends and never turns back, so ranking up-links by falling depth
+   below down-links by rising depth makes every dependency raise the rank (TreeCdg.tree_routes_acyclic). *)
+From FV Require Import Graph Desc Build Compile Routing Emit Side RefOracle ModelProofs HwProofs WireProofs TreeCdg TreeProofs.
+Theorem C09_hw_tree_acyclic :
+  forall (d : desc) (g : graph) (c : compiled) (ri : rinfo) (n : netlist) (nt : net) (dp : list (string * Z)),
+    net_ok d nt ->
+    build d = Ok g -> compile d g = Ok c -> gen_routing_info sp_reference c = Ok ri -> emit c ri = Ok n -> d_algo d = ID ->
+    forallb (transitb sp_reference c) (c_nis c) = true ->
+    names_sepb g nt = true -> single_attachb g c = true -> links_typedb g c = true -> degrees_fitb c = true ->
+    attachedb c nt = true -> tree_certb g dp = true ->
+    forall pairs : list (cni * cni),
+      (forall s0 t, In (s0, t) pairs -> In s0 (c_nis c) /\ In t (c_nis c) /\ cn_name s0 <> cn_name t) ->
+      acyclic (id_deps d ri n nt pairs) /\
+      forall W, (forall e, In e W -> In e (id_deps d ri n nt pairs)) -> all_wait W -> W = [].
+Proof.
+  intros d g c ri n nt dp Hnt Hb Hc Hri He Ha Htr H1 H2 H3 H4 Hatt Hcert pairs Hp.
+  pose proof (hw_tree_acyclic d g c ri n nt dp Hnt Hb Hc Hri He Ha Htr H1 H2 H3 H4 Hatt Hcert pairs Hp) as Hac.
+  split; [exact Hac|]. intros W Hsub Hall. eapply acyclic_no_deadlock; eauto.
+Qed.
+Print Assumptions C09_hw_tree_acyclic.
+
+(* Part 3: hence C09 exactly as the checker states it (C09_on: the dependency sets of all request pairs and of all
+   response pairs are acyclic and admit no set of packets waiting for each other) for EVERY ID-routed description
+   whose links form a tree -- no evaluation of the checker needed. *)
+Theorem C09_model_tree :
+  forall (d : desc) (g : graph) (c : compiled) (ri : rinfo) (n : netlist) (dp : list (string * Z)),
+    build d = Ok g -> compile d g = Ok c -> gen_routing_info sp_reference c = Ok ri -> emit c ri = Ok n -> d_algo d = ID ->
+    forallb (transitb sp_reference c) (c_nis c) = true ->
+    names_sepb g Req = true -> names_sepb g Rsp = true -> single_attachb g c = true -> links_typedb g c = true ->
+    degrees_fitb c = true -> attachedb c Req = true -> attachedb c Rsp = true -> tree_certb g dp = true ->
+    C09_on n.
+Proof. exact model_tree_C09. Qed.
+Print Assumptions C09_model_tree.
+
+(* Part 4: the hypotheses in the executable form the harness evaluates (request `tree` of the model binary,
+   Side.tree_conditions with breadth-first levels as the certificate): when all of them hold, C09 holds on the
+   emitted netlist. *)
+Theorem C09_tree_conditions_sound :
+  forall (d : desc) (g : graph) (c : compiled) (ri : rinfo) (n : netlist),
+    build d = Ok g -> compile d g = Ok c -> gen_routing_info sp_reference c = Ok ri -> emit c ri = Ok n -> d_algo d = ID ->
+    (exists bs, tree_conditions sp_reference d = Ok bs /\ forallb (fun b => b) bs = true) -> C09_on n.
+Proof. exact tree_conditions_sound. Qed.
+Print Assumptions C09_tree_conditions_sound.
+
+(* Part 5: the same for SOURCE ROUTING, on the hardware model: the signals crossed by the flits of all pairs of
+   interfaces for which a route word is emitted (a superset of the request and response pairs), each steered by its
+   own emitted word, induce an acyclic channel-dependency graph whenever the links form a tree.  `first_hopb`:
+   a shortest path from an interface starts with the router it injects into (decidable, evaluated by the harness). *)
+Theorem C09_hw_tree_acyclic_src :
+  forall (d : desc) (g : graph) (c : compiled) (ri : rinfo) (n : netlist) (nt : net) (dp : list (string * Z)),
+    net_ok d nt ->
+    build d = Ok g -> compile d g = Ok c -> gen_routing_info sp_reference c = Ok ri -> emit c ri = Ok n -> d_algo d = SRC ->
+    first_hopb sp_reference g c nt = true ->
+    names_sepb g nt = true -> single_attachb g c = true -> links_typedb g c = true ->
+    tree_certb g dp = true ->
+    forall pairs : list (cni * cni),
+      (forall s0 t, In (s0, t) pairs -> In s0 (c_nis c) /\ In t (c_nis c)) ->
+      acyclic (src_deps c d ri n nt pairs) /\
+      forall W, (forall e, In e W -> In e (src_deps c d ri n nt pairs)) -> all_wait W -> W = [].
+Proof.
+  intros d g c ri n nt dp Hnt Hb Hc Hri He Ha Hfh H1 H2 H3 Hcert pairs Hp.
+  pose proof (hw_tree_acyclic_src d g c ri n nt dp Hnt Hb Hc Hri He Ha Hfh H1 H2 H3 Hcert pairs Hp) as Hac.
+  split; [exact Hac|]. intros W Hsub Hall. eapply acyclic_no_deadlock; eauto.
+Qed.
+Print Assumptions C09_hw_tree_acyclic_src.
+
+(* the generic core, for any set of routes over any links *)
+Theorem C09_tree_routes_acyclic :
+  forall (nt : net) (L : list link) (dep : string -> Z),
+    (forall u v, In (u, v) L -> 0 <= dep u /\ 0 <= dep v) ->
+    (forall u v, In (u, v) L -> dep v = dep u + 1 \/ dep u = dep v + 1) ->
+    (forall b a c, In (b, a) L -> In (b, c) L -> dep a < dep b -> dep c < dep b -> a = c) ->
+    (forall u v, In (u, v) L -> In (v, u) L) ->
+    (forall l1 l2, In l1 L -> In l2 L -> flow nt l1 = flow nt l2 -> l1 = l2) ->
+    forall routes : list (list string),
+      (forall p a b, In p routes -> In (a, b) (consecutive p) -> In (a, b) L) ->
+      (forall p, In p routes -> NoDup p) ->
+      acyclic (route_deps nt routes).
+Proof. exact tree_routes_acyclic. Qed.
+Print Assumptions C09_tree_routes_acyclic.
+
+(* non-vacuity: on the tree and the star example every hypothesis holds with the breadth-first levels as the
+   certificate, on the request and on the response network; the mesh is (rightly) not certified as a tree *)
+From FV Require Import Examples.
+Example C09_hw_tree_nonvacuous :
+  forallb (fun d =>
+    match tree_conditions sp_reference d with
+    | Ok bs => forallb (fun b => b) bs && Nat.eqb (length bs) 10
+    | Err _ => false
+    end) [ex_star ID; ex_tree ID; ex_star SRC; ex_tree SRC] = true /\
+  match tree_conditions sp_reference (ex_mesh ID) with Ok [false] => true | _ => false end = true.
+Proof. vm_compute. auto. Qed.
